@@ -137,14 +137,23 @@ Section Model.
     | AReject =>
       if is_locked c && negb (fwd c) then Some (set_ist c IFailedU, 0%Z) else None
     | AFwd r =>
-      if is_locked c && mb_none c then
+      (* forwardBatch skips adds that already have a response in the mailbox
+         (HasPacket), but that check is not atomic with CommitCircuits: the
+         switch may deliver the response in between.  A Drop changes nothing,
+         a repeated Fail of a circuit that already carries a fail neither. *)
+      if is_locked c then
         match cs c, r with
         | CNone, FAdd =>
-          Some (mkCirc (ck c) (chash c) (ain c) (aout c) (ochan c) true false false true
-                       CHalf (os c) (mb c) (ist c), 0%Z)
+          if mb_none c then
+            Some (mkCirc (ck c) (chash c) (ain c) (aout c) (ochan c) true false false true
+                         CHalf (os c) (mb c) (ist c), 0%Z)
+          else None
         | COpen, FDrop => Some (c, 0%Z)
         | CHalf, FDrop => if loaded c then None else Some (c, 0%Z)
-        | CHalf, FFail => if loaded c then Some (set_mb c RFail, 0%Z) else None
+        | CHalf, FFail =>
+          if loaded c then
+            match mb c with RSettle _ => None | _ => Some (set_mb c RFail, 0%Z) end
+          else None
         | _, _ => None
         end
       else None
